@@ -166,6 +166,10 @@ impl futures_sink::Sink<u64> for SPush {
 }
 
 // ------------------------------------------------------------------------------------------
+fn plain_items(v: &Value) -> Vec<u64> {
+    v["s"].as_array().expect("script").iter().map(num).collect()
+}
+
 /// Poll a future to completion (at most `cap` polls): number of Pending polls and the output.
 fn run_future<F: Future>(fut: F, cap: usize) -> (usize, Option<F::Output>) {
     let mut fut = std::pin::pin!(fut);
@@ -195,6 +199,10 @@ pub fn run_x(case: &Value) -> Value {
         json!({ "pendings": pend, "completed": completed, "after_end": after_end, "result": result })
     };
     match case["comb"].as_str().expect("comb") {
+        // plain sources: the script must hold items only
+        "iter" => drive(pull::iter(plain_items(&ins[0])), extra, cap),
+        "once" => drive(pull::once(plain_items(&ins[0])[0]), extra, cap),
+        "empty" => drive(pull::empty::<u64>(), extra, cap),
         "stream" => drive(pull::stream(SStream(a())), extra, cap),
         "stream_compat" => drive(pull::stream(pull::stream_compat(a())), extra, cap),
         "stream_ready" => drive(pull::stream_ready(SStream(a()), Waker::noop().clone()), extra, cap),
